@@ -290,7 +290,7 @@ func runC05(t *mon.T, raw json.RawMessage) {
 
 func carBin() string { return filepath.Join(os.Getenv("VERIF_BIN"), "car") }
 
-func runCar(t *mon.T, dir string, stdin []byte, args ...string) (string, string, error, bool) {
+func runCarT(t *mon.T, dir string, stdin []byte, args ...string) (string, string, error, bool) {
 	ctx, cancel := context.WithTimeout(context.Background(), 120*time.Second)
 	defer cancel()
 	cmd := exec.CommandContext(ctx, carBin(), args...)
@@ -325,7 +325,7 @@ func c05CLI(t *mon.T, d c05Desc, dir string) {
 		names = append(names, n)
 	}
 	created := filepath.Join(dir, "created.car")
-	_, stderr, err, tmo := runCar(t, dir, nil, "create", "--version", "2", "-f", created, src)
+	_, stderr, err, tmo := runCarT(t, dir, nil, "create", "--version", "2", "-f", created, src)
 	if tmo {
 		return
 	}
@@ -344,7 +344,7 @@ func c05CLI(t *mon.T, d c05Desc, dir string) {
 	rootStr := lab.ToCid(a.Payload.Header.Roots[0]).String()
 	// get-dag (CARv2 output)
 	got := filepath.Join(dir, "dag.car")
-	if _, stderr, err, tmo := runCar(t, dir, nil, "get-dag", created, rootStr, got); tmo {
+	if _, stderr, err, tmo := runCarT(t, dir, nil, "get-dag", created, rootStr, got); tmo {
 		return
 	} else if err != nil {
 		t.Violatef("car get-dag/created archive/exit-nonzero", "car get-dag failed: %v %s", err, stderr)
@@ -363,7 +363,7 @@ func c05CLI(t *mon.T, d c05Desc, dir string) {
 	list := filepath.Join(dir, "cids.txt")
 	mustWrite(list, []byte(strings.Join(keep, "\n")+"\n"))
 	filtered := filepath.Join(dir, "filtered.car")
-	if _, stderr, err, tmo := runCar(t, dir, nil, "filter", "--cid-file", list, created, filtered); tmo {
+	if _, stderr, err, tmo := runCarT(t, dir, nil, "filter", "--cid-file", list, created, filtered); tmo {
 		return
 	} else if err != nil {
 		t.Violatef("car filter/created archive/exit-nonzero", "car filter failed: %v %s", err, stderr)
